@@ -233,6 +233,26 @@ def ops : List (String × Handler) := [
     | [w, evs, result] => match w.toNat? with
       | some W => validate W (if evs == "_" then [] else evs.splitOn ",") result
       | none => badOp
+    -- a call that stays in the preamble (Iota.Mine.Preamble): no protocol event may occur at all; only the
+    -- environment's cancellation (`ca`) may be logged
+    | [_, evs, result, pre] =>
+      let toks := if evs == "_" then [] else evs.splitOn ","
+      let cancelled := toks.contains "ca"
+      if toks.any (· != "ca") then "rejected: protocol events in a preamble-only call"
+      else
+        let p : Option Iota.Mine.Preamble := match pre with
+          | "unattainable" => some (Iota.Mine.preambleV1 false)
+          | "zero" => some (Iota.Mine.preambleV2 true true)
+          | "invalid" => some (Iota.Mine.preambleV2 false false)
+          | _ => none
+        match p with
+        | none => badOp
+        | some p =>
+          match Iota.Mine.preambleResult cancelled p with
+          | some (some (some n)) => if result == toString n then "accepted " ++ result else s!"rejected: expected nonce {n}"
+          | some (some none) => if result == "cancelled" then "accepted cancelled" else "rejected: expected the cancellation error"
+          | some none => if result == "panic" then "accepted panic" else "rejected: expected the documented panic"
+          | none => "rejected: the call must still be blocked (context not cancelled)"
     | _ => badOp)
 ]
 
